@@ -681,6 +681,12 @@ def run(ctx, load):
         if k[0].startswith('C03.'):
             ctx.floors.pop(k)
     ctx.floor('C05.tree-moves-keep-every-node', 9)
+    # every operation of Array and List evaluated on small instances: the elements that leave are destructed once, those that stay are
+    # neither dropped nor duplicated nor byte-copied from another container, a new slot is cleared and stamped before it is assigned
+    from . import seqmodel
+    seqmodel.report_list_ops(P, ctx, 'C05.operations-keep-every-element', 'valid', site)
+    seqmodel.report_list_ops(P, ctx, 'C05.operations-keep-every-element', 'valid', site, T='Array')
+    ctx.floor('C05.operations-keep-every-element', 21)
 
 
 EXPLANATION = (
